@@ -26,8 +26,8 @@ def B(name):
 # ------------------------------------------------------------------ numeric builtins
 def _minmax(is_min):
     def fn(ip: Interp, args, kwargs, node):
-        if len(args) == 1 and isinstance(args[0], VMap) and is_min:
-            return ip.lib["__minkey__"](ip, args[0])
+        if len(args) == 1 and isinstance(args[0], VMap):
+            return ip.lib["__minkey__" if is_min else "__maxkey__"](ip, args[0])
         if len(args) == 1:
             args = ip.iterate(args[0])
         if not args:
@@ -688,7 +688,15 @@ def s_appended(ip, args, kwargs, node):
     return VSeq(ref, s.elem)
 
 
-SPEC_LIB = {"without": VBuiltin("without", s_without), "with_": VBuiltin("with_", s_with),
+def s_nonempty(ip, args, kwargs, node):
+    return VBool(_b(ip.truth(args[0])))
+
+
+def s_contains(ip, args, kwargs, node):
+    return VBool(_b(ip.contains(args[0], args[1])))
+
+
+SPEC_LIB = {"contains": VBuiltin("contains", s_contains), "nonempty": VBuiltin("nonempty", s_nonempty), "nonempty_map": VBuiltin("nonempty_map", s_nonempty), "without": VBuiltin("without", s_without), "with_": VBuiltin("with_", s_with),
             "appended": VBuiltin("appended", s_appended),"dt_in_range": VBuiltin("dt_in_range", s_dt_in_range), "td_in_range": VBuiltin("td_in_range", s_td_in_range),
             "us": VBuiltin("us", s_us)}
 _orig_build = build_lib
